@@ -94,7 +94,83 @@ def adapter_c11_align(stage, prop, h, r, unlisted, outdir):
     return Outcome(ok, path, detail)
 
 
-ADAPTERS = {"c11_align": adapter_c11_align}
+def _values(stage, h):
+    from . import kani
+    vals, test = kani.concrete_playback_values(stage, h.full, h.profile, max(h.timeout, 900), 16)
+    return vals, test
+
+
+def _save(outdir, prop, h, art):
+    path = os.path.join(outdir, "%s_%s.json" % (prop.id, h.name))
+    art.update({"property": prop.id, "harness": h.name})
+    json.dump(art, open(path, "w"), indent=1)
+    return path
+
+
+def _native_case(stage, case, timeout=15):
+    """Runs a case in dev and release; reproduced if either shows rc==1, a crash or a hang."""
+    outs = []
+    hit = False
+    for rel in (False, True):
+        rc, out = run_case(stage, case, release=rel, timeout=timeout)
+        outs.append({"release": rel, "rc": rc, "output": out[-1500:]})
+        if rc == 1 or crashed(rc):
+            hit = True
+    return hit, outs
+
+
+def adapter_c13_find(stage, prop, h, r, unlisted, outdir):
+    """Harness draws hay bytes then needle bytes (one u8 each), in that order."""
+    vals, _t = _values(stage, h)
+    hn, nn = h.shape["hay"], h.shape["needle"]
+    if not vals or len(vals) < hn + nn:
+        return Outcome(False, "", "no concrete values from the solver")
+    hay = bytes(v[0] for v in vals[:hn])
+    nd = bytes(v[0] for v in vals[hn:hn + nn])
+    case = ["c13-find", hay.hex(), nd.hex()]
+    hit, outs = _native_case(stage, case)
+    path = _save(outdir, prop, h, {"kind": "native-case", "case": case, "expect_rc": 1, "runs": outs,
+                                   "hay": hay.decode("latin1"), "needle": nd.decode("latin1")})
+    return Outcome(hit, path, outs[0]["output"].strip()[-300:] if hit else
+                   "real find() agrees with std on the counterexample (it depends on a contract stub)")
+
+
+def adapter_c13_replace(stage, prop, h, r, unlisted, outdir):
+    """Harness draws hay, from, to bytes (one u8 each, in that order)."""
+    vals, _t = _values(stage, h)
+    hn, fn, tn = h.shape["hay"], h.shape["from"], h.shape["to"]
+    if vals is None or len(vals) < hn + fn + tn:
+        return Outcome(False, "", "no concrete values from the solver")
+    b = bytes(v[0] for v in vals[:hn + fn + tn])
+    case = ["c13-replace", b[:hn].hex(), b[hn:hn + fn].hex(), b[hn + fn:].hex()]
+    hit, outs = _native_case(stage, case)
+    path = _save(outdir, prop, h, {"kind": "native-case", "case": case, "expect_rc": 1, "runs": outs})
+    return Outcome(hit, path, outs[0]["output"].strip()[-300:])
+
+
+def adapter_c07_text(stage, prop, h, r, unlisted, outdir):
+    """Scanner harnesses draw the N text bytes first.  The counterexample text is lexed natively
+    from the start; the suffix from the harness cursor is tried as a text of its own as well
+    (the per-routine harness starts at an arbitrary cursor)."""
+    vals, _t = _values(stage, h)
+    n, cur = h.shape["text_bytes"], h.shape.get("cursor", 0)
+    if vals is None or len(vals) < n:
+        return Outcome(False, "", "no concrete values from the solver")
+    text = bytes(v[0] for v in vals[:n])
+    tried = []
+    for cand in (text, text[cur:]):
+        case = ["c07-lex", cand.hex()]
+        hit, outs = _native_case(stage, case)
+        tried.append({"case": case, "runs": outs})
+        if hit:
+            path = _save(outdir, prop, h, {"kind": "native-case", "case": case, "expect_rc": 1, "runs": outs,
+                                           "text": cand.decode("utf-8", "replace")})
+            return Outcome(True, path, outs[0]["output"].strip()[-300:])
+    path = _save(outdir, prop, h, {"kind": "native-case", "case": tried[0]["case"], "expect_rc": 1, "tried": tried})
+    return Outcome(False, path, "the real lexer handles the counterexample text (cursor not reachable by lexing from 0?)")
+
+
+ADAPTERS = {"c07_text": adapter_c07_text, "c11_align": adapter_c11_align, "c13_find": adapter_c13_find, "c13_replace": adapter_c13_replace}
 
 
 def replay_file(art, path):
